@@ -40,9 +40,12 @@ CLAIM = dict(
     "the final array). Tie: the real class with instrumented real stage objects (well-behaved or input-overwriting), 0-3 extra "
     "baselines incl. multi-channel signals, 0-2 updates, against the model: stage inputs, result class, result array, result on "
     "buffers, probe after the call, stored baseline after the call - exact on dyadic float64 images; exact-rational ties for "
-    "promotion (uint8/uint16) and the stock reductions (1e-5). OBSERVED ONLY (oracle): result metadata = probe metadata (no "
-    "theorem), float32 inputs, TVD / compare_images / cv2 internals, 0-preservation of TVD, update(mask=...) (unused by this class).",
-    note="stage objects are parameters of the model; metadata of the result, library numerics and float32 are observed only",
+    "promotion (uint8/uint16) and the stock reductions (1e-5). Result metadata: result_meta (with the constructor model of "
+    "DarsiaModel.Persist: the returned image, of the class the kind rule yields, carries the probe's physical metadata key by "
+    "key, scalar = True when reduced, all keys of the probe's class otherwise; parametric in the key table whose shape C18 "
+    "discharges), result_kind_cases; tied: per metadata key same / True / other, model on symbolic values vs real result. The "
+    "correspondence runs on float64 and float32 (dyadic) images. OBSERVED ONLY (oracle): TVD / compare_images / cv2 internals, 0-preservation of TVD, update(mask=...) (unused by this class).",
+    note="stage objects are parameters of the model; library numerics are observed only",
     technique="Lean 4 proof (list induction, state-machine and buffer invariants, case analysis over configurations, ordered-field "
     "arithmetic) + differential correspondence with instrumented stages + exact-rational numeric ties + property oracle",
 )
@@ -177,10 +180,11 @@ def correspondence(ctx, d):
         n_extra = ctx.rng.randint(0, 3) if (has_base and ctx.rng.random() < 0.6) else 0
         n_upd = ctx.rng.randint(1, 2) if ctx.rng.random() < 0.35 else 0
         scribble = ctx.rng.random() < 0.4
-        base = rand_image(ctx, d, kind, shape)
-        extras = [rand_image(ctx, d, kind, shape) for _ in range(n_extra)]
-        updates = [rand_image(ctx, d, kind, shape) for _ in range(n_upd)]
-        probe = rand_image(ctx, d, kind, shape) if ctx.rng.random() < 0.9 else (updates[-1] if updates else base).copy()
+        fdt = ctx.rng.choice([np.float64, np.float64, np.float32])  # dyadic values: float32 arithmetic is exact as well
+        base = rand_image(ctx, d, kind, shape, fdt)
+        extras = [rand_image(ctx, d, kind, shape, fdt) for _ in range(n_extra)]
+        updates = [rand_image(ctx, d, kind, shape, fdt) for _ in range(n_upd)]
+        probe = rand_image(ctx, d, kind, shape, fdt) if ctx.rng.random() < 0.9 else (updates[-1] if updates else base).copy()
         log = []
         an = build(d, cfg, ([base] + extras) if has_base else None, log, scribble=scribble)
         req = (f"call {cfg['opt']} {int(cfg['first'])} {kind} " + (show_arr(base.img) if has_base else "none")
@@ -205,8 +209,14 @@ def correspondence(ctx, d):
             continue
         tr = ";".join(f"{n}={show_arr(a)}" for n, a in log if not n.startswith("out:"))
         stored = getattr(an, "base", None)
+        pm, rm = meta_snapshot(probe), meta_snapshot(res)
+        pm["scalar"], rm["scalar"] = probe.scalar, res.scalar
+        mline = []
+        for key in ("space_dim", "indexing", "dimensions", "origin", "series", "scalar", "date", "reference_date", "time", "name"):
+            same = meta_equal({key: pm[key]}, {key: rm[key]}) is None
+            mline.append(f"{key}=" + ("same" if same else ("True" if rm[key] is True else "other")))
         impl.append(f"{tr}|{type(res).__name__}|{show_arr(res.img)}|{show_arr(res.img)}|{show_arr(probe.img)}|"
-                    + (show_arr(stored.img) if stored is not None else "none"))
+                    + (show_arr(stored.img) if stored is not None else "none") + "|" + " ".join(mline))
     ctx.correspond("pipeline", lines, impl)
 
 
